@@ -134,12 +134,16 @@ FunctorManager::Env FunctorManager::createEnv(Context& caller, unsigned id, cons
 
   assert(entry.functor->params.size() == pvals.size());
 
+  /* from now on the context is owned by the env, so it returns to the cache
+   * even when the evaluation of an argument fails */
+  Env env(entry, _ctx);
+
   /* bind parameter values ​​to variables for all symbols */
   unsigned i = 0;
   for (const Symbol& symbol : entry.functor->params)
     VariableExpression(symbol).store(*_ctx, caller, pvals[i++]);
 
-  return Env(entry, _ctx);
+  return env;
 }
 
 }
